@@ -245,9 +245,11 @@ def _ndk(records, opts):
             c_dt, c_lat, c_lon, c_dep = '0.0', lat.strip(), lon.strip(), dep.strip()
         else:
             c_dt, c_lat, c_lon, c_dep = cen      # four decimal strings
+        # formal errors of the centroid: small (a blank separates the columns) or filling their fixed-width columns
+        e_t, e_la, e_lo, e_d = ('10.5', '10.06', '12.09', '112.5') if var.get('errors') == 'wide' else ('0.9', '0.06', '0.09', '12.5')
         l3 = 'CENTROID: %s%s%s%s%s%s%s%s %-4s %-16s' % (
-            fmt_dec(c_dt, '8.1f'), fmt_dec('0.9', '4.1f'), fmt_dec(c_lat, '7.2f'), fmt_dec('0.06', '5.2f'),
-            fmt_dec(c_lon, '8.2f'), fmt_dec('0.09', '5.2f'), fmt_dec(c_dep, '6.1f'), fmt_dec('12.5', '5.1f'),
+            fmt_dec(c_dt, '8.1f'), fmt_dec(e_t, '4.1f'), fmt_dec(c_lat, '7.2f'), fmt_dec(e_la, '5.2f'),
+            fmt_dec(c_lon, '8.2f'), fmt_dec(e_lo, '5.2f'), fmt_dec(c_dep, '6.1f'), fmt_dec(e_d, '5.1f'),
             'FREE', 'S-20050322125201')
         # CMT info (3): exponent and six tensor elements with errors
         expo, m0 = var.get('moment', [23, '1.312'])
